@@ -74,7 +74,12 @@ def r181_182(ctx):
             ("RandomState", {rstate: "RS", is_rs: True, is_int: False},
              [f"rs.randint(low=0, high={high}, size=n, dtype=np.uint32)"]),
             ("None", {rstate: None, is_rs: False, is_int: False},
-             [f"np.random.default_rng().integers(low=0, high={high}, size=n, dtype=np.uint32)"]),
+             [f"np.random.default_rng().integers(low=0, high={high}, size=n, dtype=np.uint32)",
+              # default_rng(None) is default_rng(): fresh entropy
+              f"np.random.default_rng(seed=rs).integers(low=0, high={high}, size=n, dtype=np.uint32)",
+              f"np.random.default_rng(rs).integers(low=0, high={high}, size=n, dtype=np.uint32)",
+              f"np.random.default_rng(None).integers(low=0, high={high}, size=n, dtype=np.uint32)",
+              f"np.random.default_rng(seed=None).integers(low=0, high={high}, size=n, dtype=np.uint32)"]),
         ):
             try:
                 got = specialise(rs_t, env)
@@ -131,6 +136,10 @@ def r183(ctx):
             b = {"S": S, "R": R, "I": I, **NP}
             ok = A.eq(arg(apps[0], 0), A.spec(rebuild, b)) and (A.eq(lev.data["iter"], A.spec("range(R.shape[0])", {**b, "range": glob("builtins.range")}))
                                                                or A.eq(lev.data["iter"], A.spec("range(len(Q))", {"Q": P["quantiles"], "range": glob("builtins.range"), "len": glob("builtins.len")})))
+            if not ok and lev.data["iter"] is R:
+                # `for row in R:` - iterating the array directly yields R[0], R[1], ... (its first axis), i.e. R[i, :] / R[i, :, :]
+                direct = rebuild.replace("R[I, :, :]", "I").replace("R[I, :]", "I")
+                ok = A.eq(arg(apps[0], 0), A.spec(direct, b))
         ctx.ob("R18.3", fn, apps[0].node if apps else None, ok, "one result per quantile, rebuilt with the first sample's labels",
                construct="quantile results")
     # dispatcher
@@ -153,11 +162,15 @@ def r183(ctx):
     if ok:
         body = ret.args[1]
         ok = body.op == "call" and body.args[0].op == "attr" and body.args[0].args[1] == "reindex" and body.args[0].args[0] is mk("elem", S)
-        idx = body.args[1][0] if ok and body.args[1] else None
-        ok = ok and idx is not None and idx.op == "call" and idx.args[0] is glob("functools.reduce") and not body.args[2]
+        # the new index is the first positional argument, or index= (labels= is the same parameter); nothing else (no fill)
+        kws_ = dict(body.args[2]) if ok else {}
+        idx = (body.args[1][0] if body.args[1] else (kws_.get("index") if kws_.get("index") is not None else kws_.get("labels"))) if ok else None
+        ok = ok and idx is not None and idx.op == "call" and idx.args[0] is glob("functools.reduce") and \
+            not (set(kws_) - {"index", "labels"}) and len(body.args[1]) + len(kws_) == 1
         if ok:
             lam = idx.args[1][0]
-            ok = lam.op == "lam" and lam.args[1] is mk("call", mk("attr", mk("bv", 0), "union"), (mk("bv", 1),), ())
+            ok = (lam.op == "lam" and lam.args[1] is mk("call", mk("attr", mk("bv", 0), "union"), (mk("bv", 1),), ())) or \
+                lam is glob("pandas.Index.union")   # the unbound method: Index.union(x, y) is x.union(y)
             seq = idx.args[1][1] if len(idx.args[1]) > 1 else None
             ok = ok and seq is not None and seq.op == "comp" and seq.args[2][0][0] is S and seq.args[1] is mk("attr", mk("elem", S), "index")
     ctx.ob("R18.3", ra.func, None, ok, "samples are re-indexed (without fill) to the union of their indices, so groups missing "
